@@ -214,6 +214,8 @@ class CrashWorld(World):
         self.slow = None  # (statement index, us) for the next op
         self.stats = collections.Counter()
         self.last_point = None
+        self.gstmt = 0  # statements of the live store since the run began
+        self.kill_at = None  # (global statement number, mode): really die there (selftest crashstub)
         self.strict = True  # raise on the first failing crash point (C06); C18 turns this off
         self.evaluated = []
         self.t_open = None
@@ -235,6 +237,11 @@ class CrashWorld(World):
         if path != self.path:
             return
         self.stmt_in_op += 1
+        self.gstmt += 1
+        if self.kill_at is not None and self.kill_at[0] == self.gstmt and self.inflight:
+            if self.kill_at[1] == "exit":
+                os._exit(0)
+            os.kill(os.getpid(), 9)
         if self.slow is not None and self.inflight and self.stmt_in_op == self.slow[0]:
             seams.CLOCK.advance(self.slow[1])
             self.probes["fault_slow_statement"] += 1
@@ -286,6 +293,8 @@ class CrashWorld(World):
             "step": self.cur_step,
             "op": self.cur_op,
             "stmt": self.stmt_in_op if kind == "stmt" else None,
+            "gstmt": self.gstmt,
+            "gen": self.gen,
             "t_us": seams.CLOCK.peek(),
         }
         self.pending.append(pt)
